@@ -155,7 +155,7 @@ def reset_index_(df: pd.DataFrame, *, names: Optional[SWCNames] = None) -> None:
     root_id = df.loc[root_loc, names.id]  # type:ignore
     df[names.id] = df[names.id] - root_id
     df[names.pid] = df[names.pid] - root_id
-    df.loc[root_loc, names.pid] = -1  # type:ignore
+    df.loc[roots, names.pid] = -1  # type:ignore
 
 
 def _copy_and_apply(fn: Callable, df: pd.DataFrame, *args, **kwargs):
